@@ -298,8 +298,10 @@ def equivalent(a, b):
             return False
     if a is None or b is None:
         return a is None and b is None
+    if isinstance(a, np.ufunc) or isinstance(b, np.ufunc):
+        return a is b       # a NumPy function is a value: the same-named function of another library is another function
     if callable(a) or callable(b):
-        return a is b or getattr(a, "__name__", 1) == getattr(b, "__name__", 2)
+        return a is b or (getattr(a, "__name__", 1) == getattr(b, "__name__", 2) and getattr(a, "__module__", 1) == getattr(b, "__module__", 2))
     try:
         return bool(a == b)
     except Exception:
@@ -393,6 +395,65 @@ def load_orders(ctx):
             pass
 
 
+def derived_priors(ctx):
+    """derived priors: EVERY NumPy function of one or two float arguments applied to priors, and operator expressions --
+    standalone, inside a scatterer and inside a model -- reload with the same function object, the same tree and the same text"""
+    import operator
+    rng = ctx.rng
+    ufs = sorted({u for u in vars(np).values() if isinstance(u, np.ufunc) and u.nin in (1, 2) and u.nout == 1 and
+                  any(t.startswith("d" * u.nin + "->") for t in u.types)}, key=lambda u: u.__name__)
+    base = lambda j: Uniform(0.4 + 0.01 * j, 0.9 + 0.01 * j, guess=0.6 + 0.01 * j)
+    cases = []
+    for j, u in enumerate(ufs):
+        try:
+            pr = u(base(j)) if u.nin == 1 else (u(base(j), Gaussian(0.7, 0.1)) if j % 2 else u(base(j), 0.5))
+        except Exception:
+            continue
+        if isinstance(pr, TransformedPrior):
+            cases.append(("ufunc:" + u.__name__, pr, u))
+    p0, q0 = base(1), Gaussian(0.5, 0.05)
+    for nm, ex in (("2*p+1", lambda: 2 * p0 + 1), ("p-q", lambda: p0 - q0), ("1/p", lambda: 1 / p0), ("p/3", lambda: p0 / 3), ("p**2", lambda: p0 ** 2),
+                   ("2**p", lambda: 2 ** p0), ("-(p*q)", lambda: -(p0 * q0)), ("sqrt(p*p+q*q)", lambda: np.sqrt(p0 * p0 + q0 * q0))):
+        cases.append(("expr:" + nm, ex(), None))
+    for nm, pr, u in cases:
+        for where in ("alone", "scatterer", "model"):
+            if where != "alone" and not (nm.startswith("expr") or ufs.index(u) % 3 == (1 if where == "scatterer" else 2) or u.__name__ in ("log1p", "expm1", "exp2", "cbrt", "sqrt")):
+                continue
+            ctx.tried("derived-prior", (nm, where))
+            try:
+                obj = pr if where == "alone" else Sphere(n=1.59, r=pr, center=[0.5, 0.5, 5.0])
+                if where == "model":
+                    obj = AlphaModel(obj, alpha=Uniform(0.5, 1.0), noise_sd=0.1, medium_index=1.33, illum_wavelen=0.66, illum_polarization=(1, 0), theory=Mie())
+                back, texts = cycle(obj, 2)
+                info = dict(kind="derived-prior", which=nm, where=where)
+                got = back if where == "alone" else (back.r if where == "scatterer" else back.scatterer.r)
+                if u is not None and got.transformation is not u:
+                    ctx.violation("C15:derived-prior:function", "%s (%s): the reloaded prior's transformation is %r from %r, not the NumPy function it was built with" % (
+                        nm, where, got.transformation, getattr(type(got.transformation), "__module__", "?") if not isinstance(got.transformation, np.ufunc) else [m for m in ("numpy", "scipy.special") if getattr(__import__(m, fromlist=["x"]), got.transformation.__name__, None) is got.transformation]), info)
+                elif not equivalent(obj, back):
+                    ctx.violation("C15:derived-prior:equivalent", "%s (%s) is not equivalent to itself after save/load" % (nm, where), info)
+                elif where != "model" and not (back == obj):
+                    ctx.violation("C15:derived-prior:eq", "%s (%s): the library's own equality fails after reload" % (nm, where), info)
+                elif len(set(texts)) != 1:
+                    ctx.violation("C15:derived-prior:text", "%s (%s): re-saving the reloaded object changes the text" % (nm, where), info)
+                elif where == "model" and (back._parameter_names != obj._parameter_names or show_maps(back) != show_maps(obj)):
+                    ctx.violation("C15:derived-prior:model-maps", "%s: the reloaded model's parameter names or value-to-place mapping differ" % nm, info)
+            except Exception as ex:
+                ctx.violation("C15:derived-prior-raises:%s" % type(ex).__name__, "%s (%s): save/load raised %r" % (nm, where, ex), dict(kind="derived-prior", which=nm, where=where))
+
+
+def show_maps(model):
+    def sh(o):
+        if isinstance(o, np.ufunc):
+            return "ufunc<%s@%d>" % (o.__name__, id(o))
+        if isinstance(o, (list, tuple)):
+            return "[" + ", ".join(sh(x) for x in o) + "]"
+        if isinstance(o, dict):
+            return "{" + ", ".join("%s: %s" % (k, sh(v)) for k, v in sorted(o.items(), key=lambda kv: str(kv[0]))) + "}"
+        return repr(o)
+    return sh(model._maps)
+
+
 def search(ctx):
     rng = ctx.rng
     os.makedirs(os.path.join(os.path.dirname(__file__), "..", "..", "build"), exist_ok=True)
@@ -413,6 +474,7 @@ def search(ctx):
         r = impl_call(fn)
         if r is not True:
             ctx.violation(key, what + (" [%r]" % (r,) if r is not False else ""), dict(kind="probe", key=key))
+    derived_priors(ctx)
     n = ctx.n(100, 1000)
     for i in range(n):
         try:
